@@ -326,6 +326,8 @@ package hashgraph
 //@   ensures[fresh]        ret1 == nil ==> ret0 != nil && __fresh(ret0) && len(ret0.Body.Parents) == 2
 //@   ensures[creator-only] ret1 == nil ==> (forall k int :: 0 <= k && k < len(ret0.Body.BlockSignatures) ==> __seqeq(ret0.Body.BlockSignatures[k].Validator, ret0.Body.Creator))
 //@   ensures[payload]      ret1 == nil ==> __eq(ret0.Body.Transactions, wevent.Body.Transactions) && __eq(ret0.Body.InternalTransactions, wevent.Body.InternalTransactions) && ret0.Body.Index == wevent.Body.Index && ret0.Body.Timestamp == wevent.Body.Timestamp && ret0.Signature == wevent.Signature
+//@   ensures[parents]      ret1 == nil ==> (wevent.Body.SelfParentIndex < 0 ==> ret0.Body.Parents[0] == "") && (wevent.Body.SelfParentIndex >= 0 ==> __in(ret0.Body.Parents[0], G_events(h.Store)) && G_events(h.Store)[ret0.Body.Parents[0]].Body.Index == wevent.Body.SelfParentIndex) && (wevent.Body.OtherParentIndex < 0 ==> ret0.Body.Parents[1] == "") && (wevent.Body.OtherParentIndex >= 0 ==> __in(ret0.Body.Parents[1], G_events(h.Store)) && G_events(h.Store)[ret0.Body.Parents[1]].Body.Index == wevent.Body.OtherParentIndex)
+//@   ensures[refs]         ret1 == nil ==> ret0.Body.selfParentIndex == wevent.Body.SelfParentIndex && ret0.Body.otherParentCreatorID == wevent.Body.OtherParentCreatorID && ret0.Body.otherParentIndex == wevent.Body.OtherParentIndex && ret0.Body.creatorID == wevent.Body.CreatorID
 //@   ensures[sigs]         ret1 == nil ==> (wevent.Body.BlockSignatures == nil) == (ret0.Body.BlockSignatures == nil) && len(ret0.Body.BlockSignatures) == len(wevent.Body.BlockSignatures) && (forall k int :: 0 <= k && k < len(ret0.Body.BlockSignatures) ==> ret0.Body.BlockSignatures[k].Index == wevent.Body.BlockSignatures[k].Index && ret0.Body.BlockSignatures[k].Signature == wevent.Body.BlockSignatures[k].Signature)
 
 // BlockSignedBy: sig is a signature, by priv, of the block's body as it is now.
@@ -423,3 +425,30 @@ package hashgraph
 //@   loop 1 invariant[itxbound] forall k int :: 0 <= k && k < __idx() ==> 0 <= __sumseq(frame.Events, k, func(e *FrameEvent) int { return len(e.Core.Body.InternalTransactions) }) && __sumseq(frame.Events, k, func(e *FrameEvent) int { return len(e.Core.Body.InternalTransactions) }) + len(frame.Events[k].Core.Body.InternalTransactions) <= len(internalTransactions)
 //@   loop 1 invariant[txs]  !(transactions == nil) && len(transactions) == __sumseq(frame.Events, __idx(), func(e *FrameEvent) int { return len(e.Core.Body.Transactions) }) && (forall k int, j int :: 0 <= k && k < __idx() && 0 <= j && j < len(frame.Events[k].Core.Body.Transactions) ==> __seqeq(transactions[__sumseq(frame.Events, k, func(e *FrameEvent) int { return len(e.Core.Body.Transactions) }) + j], frame.Events[k].Core.Body.Transactions[j]))
 //@   loop 1 invariant[itxs] !(internalTransactions == nil) && len(internalTransactions) == __sumseq(frame.Events, __idx(), func(e *FrameEvent) int { return len(e.Core.Body.InternalTransactions) }) && (forall k int, j int :: 0 <= k && k < __idx() && 0 <= j && j < len(frame.Events[k].Core.Body.InternalTransactions) ==> __eq(internalTransactions[__sumseq(frame.Events, k, func(e *FrameEvent) int { return len(e.Core.Body.InternalTransactions) }) + j], frame.Events[k].Core.Body.InternalTransactions[j]))
+
+// ------------------------------------------------------------------------------------------------
+// Wire form (C15)
+
+//@ func (e *Event) WireBlockSignatures() []WireBlockSignature
+//@   safety on
+//@   requires e != nil
+//@   modifies nothing
+//@   ensures[nil]  e.Body.BlockSignatures == nil ==> ret0 == nil
+//@   ensures[copy] e.Body.BlockSignatures != nil ==> ret0 != nil && len(ret0) == len(e.Body.BlockSignatures) && (forall k int :: 0 <= k && k < len(ret0) ==> ret0[k].Index == e.Body.BlockSignatures[k].Index && ret0[k].Signature == e.Body.BlockSignatures[k].Signature)
+//@   loop 1 invariant[part] len(wireSignatures) == len(e.Body.BlockSignatures) && !(wireSignatures == nil) && (forall j int :: 0 <= j && j < i ==> wireSignatures[j].Index == e.Body.BlockSignatures[j].Index && wireSignatures[j].Signature == e.Body.BlockSignatures[j].Signature)
+
+//@ func (e *Event) ToWire() WireEvent
+//@   safety on
+//@   requires e != nil
+//@   modifies nothing
+//@   ensures[payload]   __eq(ret0.Body.Transactions, e.Body.Transactions) && __eq(ret0.Body.InternalTransactions, e.Body.InternalTransactions) && ret0.Body.Index == e.Body.Index && ret0.Body.Timestamp == e.Body.Timestamp && ret0.Signature == e.Signature
+//@   ensures[refs]      ret0.Body.SelfParentIndex == e.Body.selfParentIndex && ret0.Body.OtherParentCreatorID == e.Body.otherParentCreatorID && ret0.Body.OtherParentIndex == e.Body.otherParentIndex && ret0.Body.CreatorID == e.Body.creatorID
+//@   ensures[sigs]      (ret0.Body.BlockSignatures == nil) == (e.Body.BlockSignatures == nil) && len(ret0.Body.BlockSignatures) == len(e.Body.BlockSignatures) && (forall k int :: 0 <= k && k < len(ret0.Body.BlockSignatures) ==> ret0.Body.BlockSignatures[k].Index == e.Body.BlockSignatures[k].Index && ret0.Body.BlockSignatures[k].Signature == e.Body.BlockSignatures[k].Signature)
+
+//@ func (h *Hashgraph) SetWireInfo(event *Event) error
+//@   safety on
+//@   requires h != nil && event != nil && len(event.Body.Parents) == 2
+//@   modifies event.Body, G_miss(h.Store)
+//@   ensures[kept]    __eq(event.Body.Transactions, old(event.Body.Transactions)) && __eq(event.Body.InternalTransactions, old(event.Body.InternalTransactions)) && __eq(event.Body.Parents, old(event.Body.Parents)) && __eq(event.Body.Creator, old(event.Body.Creator)) && event.Body.Index == old(event.Body.Index) && __eq(event.Body.BlockSignatures, old(event.Body.BlockSignatures)) && event.Body.Timestamp == old(event.Body.Timestamp)
+//@   ensures[self]    ret0 == nil ==> (event.Body.Parents[0] == "" ==> event.Body.selfParentIndex == -1) && (event.Body.Parents[0] != "" ==> __in(event.Body.Parents[0], G_events(h.Store)) && event.Body.selfParentIndex == G_events(h.Store)[event.Body.Parents[0]].Body.Index)
+//@   ensures[other]   ret0 == nil ==> (event.Body.Parents[1] == "" ==> event.Body.otherParentIndex == -1 && event.Body.otherParentCreatorID == 0) && (event.Body.Parents[1] != "" ==> __in(event.Body.Parents[1], G_events(h.Store)) && event.Body.otherParentIndex == G_events(h.Store)[event.Body.Parents[1]].Body.Index)
